@@ -41,7 +41,12 @@ revokers and actors.
 
 `entries id` is the `ClientState` of `id` as a list: head = `active`, tail = `inactive`
 NEWEST FIRST (`Vec::push` = insert after the head, `Vec::pop` = the element after the head);
-`[]` = no entry.  `actorExit c` may happen at any time (stream end, error, ping timeout, …); an
+`[]` = no entry.  The actor of a registered connection is modelled at the granularity of ONE
+iteration of its `select! { biased; … }` loop (`actorStep c`), with the priority the source
+gives the arms: the cancellation arm comes FIRST, then the inbound stream, then the outbound
+queues.  `inbox c` is the backlog of frames the client has already written to the socket
+(`arrive c` adds one; any number may be pending), `handled c` counts the inbound frames the actor
+has taken and handled/forwarded.  `actorExit c` may happen at any time (stream end, error, ping timeout, …); an
 actor whose token is cancelled has nothing else left to do (the cancellation branch is the
 first of the `biased` select), which is what `Quiescent` expresses.
 
@@ -92,8 +97,14 @@ structure State where
   nextCid : Cid
   /-- ghost: results returned by the `disconnect` calls so far, oldest first -/
   results : List Bool
+  /-- inbound frames of connection `c` written by its client and not yet read by its actor -/
+  inbox : Cid → Nat
+  /-- ghost: number of inbound frames the actor of `c` has read and handled (forwarded / answered) -/
+  handled : Cid → Nat
 
-def init : State := { conns := fun _ => none, entries := fun _ => [], nextCid := 0, results := [] }
+def init : State :=
+  { conns := fun _ => none, entries := fun _ => [], nextCid := 0, results := [],
+    inbox := fun _ => 0, handled := fun _ => 0 }
 
 def setConn (s : State) (c : Cid) (x : Conn) : State :=
   { s with conns := fun k => if k = c then some x else s.conns k }
@@ -124,6 +135,10 @@ inductive Op where
   | disconnect (id : Id) (sel : Option Cid)
   /-- the actor of `c` leaves its loop and unregisters -/
   | actorExit (c : Cid)
+  /-- the client of `c` writes one more frame to its socket -/
+  | arrive (c : Cid)
+  /-- one iteration of the actor loop of `c` with the `biased` priority of the source -/
+  | actorStep (c : Cid)
 deriving DecidableEq, Repr
 
 /-- Moves the accept thread of `c` from phase `frm` to `to` (no-op in any other phase). -/
@@ -131,6 +146,38 @@ def advance (s : State) (c : Cid) (frm to : Phase) : State :=
   match s.conns c with
   | none => s
   | some x => if x.phase = frm then setConn s c { x with phase := to } else s
+
+/-- The actor of `c` leaves `run_inner` and calls `Clients::unregister`. -/
+def exitActor (s : State) (c : Cid) : State :=
+  match s.conns c with
+  | none => s
+  | some x =>
+    if x.phase = .registered then
+      setEntry (setConn s c { x with phase := .closed }) x.owner (removeConn c (s.entries x.owner))
+    else s
+
+/-- Position of the `done.cancelled()` arm in the `biased` select of `Actor::run_inner`
+(regenerated from the source): `true` = it is the first arm. -/
+abbrev cancelArmFirst : Bool := Generated.C08.cancelArmFirst
+
+/-- One loop iteration of the actor of a registered connection: the first ready arm in source
+order runs.  With the cancellation arm first (`first = true`) a cancelled actor exits whatever
+else is ready; were it last, it would only be looked at when nothing else is ready. -/
+def actorStepWith (first : Bool) (s : State) (c : Cid) : State :=
+  match s.conns c with
+  | none => s
+  | some x =>
+    if x.phase = .registered then
+      if x.cancelled && first then exitActor s c
+      else if 0 < s.inbox c then
+        { s with inbox := fun k => if k = c then s.inbox c - 1 else s.inbox k,
+                 handled := fun k => if k = c then s.handled c + 1 else s.handled k }
+      else if x.cancelled then exitActor s c
+      else s
+    else s
+
+/-- The actor loop iteration of the code as it is. -/
+def actorStep (s : State) (c : Cid) : State := actorStepWith cancelArmFirst s c
 
 def disconnect (s : State) (id : Id) (sel : Option Cid) : State :=
   match s.entries id with
@@ -159,13 +206,9 @@ def step (s : State) : Op → State
           (c :: s.entries x.owner)
       else s
   | .disconnect id sel => disconnect s id sel
-  | .actorExit c =>
-    match s.conns c with
-    | none => s
-    | some x =>
-      if x.phase = .registered then
-        setEntry (setConn s c { x with phase := .closed }) x.owner (removeConn c (s.entries x.owner))
-      else s
+  | .actorExit c => exitActor s c
+  | .arrive c => { s with inbox := fun k => if k = c then s.inbox c + 1 else s.inbox k }
+  | .actorStep c => actorStep s c
 
 def runFrom (s : State) (ops : List Op) : State := ops.foldl step s
 
